@@ -25,6 +25,7 @@
    sufficient for visibility); the translator is trusted (see DESIGN.md, C17, and notes/C17.md). *)
 From Verif Require Import Lib.Base Lib.Lockset Lib.LocksetX Proofs.Lockset Proofs.LocksetX Proofs.C17 Gen.C17_Extracted.
 From Verif Require Import Model.C17_Snapshot Proofs.C17_Snapshot.
+From Verif Require Import Lib.Atomic Proofs.Atomic Model.C17_Cache Proofs.C17_Cache.
 From Coq Require Import String.
 
 (* ------------------------------------------------------------------------------------------------
@@ -209,6 +210,78 @@ Proof. exists torn_listing0, torn_schedule, 0%nat, torn_answer. exact two_sectio
 Print Assumptions C17_two_section_lookup_refuted.
 
 (* ------------------------------------------------------------------------------------------------
+   6. Read-derive-write inside one operation (Lib/Atomic.v).  Lock sets accept an operation that reads a field in
+   one critical section, releases the lock, and in a SECOND section writes a value computed from what it read:
+   every access is locked, there is no data race — and every update others made between the two sections is lost.
+   The translator lists the pairs (read node, write node of the same field whose value derives from that read,
+   same operation); the check demands that the guard of the field's writes, held at the read, is not released on
+   ANY path of the graph from the read to the write (or that nobody else writes the field at all).
+
+   Generic, proved once: if `no_unlock_between m g r w` then every walk of the graph from r that ends at w
+   without coming back to r (the thread's way from its LAST read at r to the write)
+   executes no unlock of m, and a thread holding m at r holds it on arrival at w.  With write isolation
+   (C17_sections_write_isolated: while a thread holds the write guard nobody else writes the field) the field
+   still has the value read at r when w is executed: the operation's read and write are ONE step of a sequential
+   order. *)
+Theorem C17_guard_kept_between :
+  forall (m : mutex) (g : graph) (r w : nat), no_unlock_between m g r w = true ->
+    forall l L, is_path g r l -> ~ In r l -> fst (walk m g false r l) = w ->
+      holds m L = true ->
+      holds m (locks_along g L r l) = true /\
+      (forall x, In x (removelast (r :: l)) -> unlocks_at m g x = false).
+Proof. exact guard_kept_lemma. Qed.
+Print Assumptions C17_guard_kept_between.
+
+(* what an accepted pair is *)
+Theorem C17_pair_ok_meaning :
+  forall skip single g entries r w, pair_ok skip single g entries (r, w) = true ->
+  exists nr nw f, nth_error g r = Some nr /\ nth_error g w = Some nw /\
+    n_instr nr = IAcc f false /\ n_instr nw = IAcc f true /\ n_owner nr = n_owner nw /\
+    let ls := infer g entries in let A := accesses_from ls 0 g in
+    (skip f = true \/ reached ls r = false \/ reached ls w = false \/
+     writes_confined single A f (n_owner nw) = true \/
+     exists m, writes_guarded A f m = true /\ held_at ls r m = true /\ no_unlock_between m g r w = true).
+Proof. exact pair_ok_cases. Qed.
+Print Assumptions C17_pair_ok_meaning.
+
+(* every derived pair of every service extracted from the CURRENT source is accepted *)
+Theorem C17_tree_atomic_ok :
+  forallb (fun '(n, g, e, sk, sg) => atomic_ok sk sg g e (pairs_of n derived_pairs)) services = true.
+Proof. vm_compute. reflexivity. Qed.
+Print Assumptions C17_tree_atomic_ok.
+
+(* ------------------------------------------------------------------------------------------------
+   7. The block root to slot cache with its data (Model/C17_Cache.v), one event per critical section.  With one
+   section per operation — the code as it is — a schedule IS a sequential order of the operations: cache and
+   answers are those of the sequential specification run in the order of the sections. *)
+Theorem C17_cache_one_section_sequential :
+  forall sch c0, forallb c_one_section sch = true ->
+    k_cache (crun sch (cinit c0)) = s_cache (srun (map op_of sch) {| s_cache := c0; s_out := [] |}) /\
+    k_out (crun sch (cinit c0)) = s_out (srun (map op_of sch) {| s_cache := c0; s_out := [] |}).
+Proof. exact one_section_sequential_lemma. Qed.
+Print Assumptions C17_cache_one_section_sequential.
+
+(* no lost update: a lookup of a root after a set of it, with no other set of the root and only cleans whose
+   minimum is not above its slot in between, answers that slot — in every schedule, from every initial cache *)
+Theorem C17_cache_set_not_lost :
+  forall pre mid post c0 k v t,
+    forallb c_one_section (pre ++ CSet k v :: mid ++ CGet t k :: post) = true ->
+    forallb (fun e => negb (sets_key k e) && keeps v e) mid = true ->
+    In (t, k, Some v) (k_out (crun (pre ++ CSet k v :: mid ++ CGet t k :: post) (cinit c0))).
+Proof. exact set_not_lost_lemma. Qed.
+Print Assumptions C17_cache_set_not_lost.
+
+(* FULL STATEMENT for a clean made of two sections (copy the entries to keep under the read lock, release, swap
+   the copy in under the write lock): every answer is that of a sequential order.  REFUTED: the schedule
+   copy; set 2 -> 100; swap; lookup 2 answers "unknown", while every sequential order of the three operations in
+   which the set precedes the lookup answers 100. *)
+Theorem C17_two_section_clean_refuted :
+  k_out (crun lost_schedule (cinit lost_cache0)) = [(1%nat, 2, None)] /\
+  forall ops, In ops lost_orders -> s_out (srun ops {| s_cache := lost_cache0; s_out := [] |}) = [(1%nat, 2, Some 100)].
+Proof. exact two_section_clean_refuted_lemma. Qed.
+Print Assumptions C17_two_section_clean_refuted.
+
+(* ------------------------------------------------------------------------------------------------
    Non-vacuity.  The analysis rejects an unguarded write/read pair, a leaked lock and a nested read
    lock, and accepts the guarded version (so acceptance is not trivial). *)
 Example C17_rejects_unguarded :
@@ -277,3 +350,52 @@ Proof. vm_compute. split; reflexivity. Qed.
 Example C17_abba_deadlocks :
   exists S, xsteps (fun _ => false) abba [0%nat; 4%nat] [] S /\ live S /\ ~ can_step abba S.
 Proof. exact abba_deadlocks. Qed.
+
+(* the atomicity check: a read under the read lock, release, write of the derived value under the write lock
+   (the shape of seeded change C17-7) is rejected although the lockset analysis accepts the graph; the same read
+   and write inside one write section are accepted *)
+Definition rcu_graph : graph :=
+  [ {| n_instr := ILock 1 false; n_succ := [1%nat]; n_owner := 0 |};
+    {| n_instr := IAcc 1 false; n_succ := [2%nat]; n_owner := 0 |};
+    {| n_instr := IUnlock 1 false; n_succ := [3%nat]; n_owner := 0 |};
+    {| n_instr := ILock 1 true; n_succ := [4%nat]; n_owner := 0 |};
+    {| n_instr := IAcc 1 true; n_succ := [5%nat]; n_owner := 0 |};
+    {| n_instr := IUnlock 1 true; n_succ := []; n_owner := 0 |} ].
+Definition rmw_graph : graph :=
+  [ {| n_instr := ILock 1 true; n_succ := [1%nat]; n_owner := 0 |};
+    {| n_instr := IAcc 1 false; n_succ := [2%nat]; n_owner := 0 |};
+    {| n_instr := IAcc 1 true; n_succ := [3%nat; 1%nat]; n_owner := 0 |};
+    {| n_instr := IUnlock 1 true; n_succ := []; n_owner := 0 |} ].
+
+(* a loop that locks, reads, writes and unlocks once per iteration: atomic per iteration *)
+Definition rmw_loop_graph : graph :=
+  [ {| n_instr := ILock 1 true; n_succ := [1%nat]; n_owner := 0 |};
+    {| n_instr := IAcc 1 false; n_succ := [2%nat]; n_owner := 0 |};
+    {| n_instr := IAcc 1 true; n_succ := [3%nat]; n_owner := 0 |};
+    {| n_instr := IUnlock 1 true; n_succ := [0%nat; 4%nat]; n_owner := 0 |};
+    {| n_instr := ISkip; n_succ := []; n_owner := 0 |} ].
+
+Example C17_atomic_rejects_read_copy_swap :
+  analysis_ok (fun _ => false) (fun _ => false) rcu_graph [0%nat] = true /\
+  atomic_ok (fun _ => false) (fun _ => false) rcu_graph [0%nat] [(1%nat, 4%nat)] = false /\
+  atomic_ok (fun _ => false) (fun _ => false) rmw_graph [0%nat] [(1%nat, 2%nat)] = true /\
+  atomic_ok (fun _ => false) (fun _ => false) rmw_loop_graph [0%nat] [(1%nat, 2%nat)] = true.
+Proof. vm_compute. repeat split; reflexivity. Qed.
+
+(* the tree has derived pairs (so C17_tree_atomic_ok speaks about something) *)
+Example C17_tree_derived_pairs_nonempty :
+  (5 <=? List.length (flat_map snd derived_pairs))%nat = true.
+Proof. vm_compute. reflexivity. Qed.
+
+(* the conditions on observed histories reject the lost update and accept the same history with the entry found *)
+Example C17_history_examples : lin_ok lost_history = false /\ lin_ok found_history = true.
+Proof. exact lin_ok_examples. Qed.
+
+(* the conditions are necessary at small scope: all 32768 histories of three operations (sets, lookups, lookups of a
+   root the node knows, cleans; two roots; intervals overlapping up to two neighbours) and all 104976 of four
+   operations on one root that come from a sequential run are accepted *)
+Example C17_history_conditions_necessary_small_scope :
+  forallb (fun w => lin_ok (hist_of [] 0 w)) (words 3) = true /\
+  forallb (fun w => lin_ok (hist_of [] 0 w)) (words4 4) = true.
+Proof. exact history_conditions_small_scope_lemma. Qed.
+
